@@ -49,6 +49,7 @@ vars == <<c, pc, res, st>>
 PrivKts   == {"rsa", "dsa", "ec256", "ec384", "ec521", "ed25519", "ed448"}
 PubOnly   == {"sk-ed25519", "sk-ecdsa"}
 Pkcs1Kts  == {"rsa", "dsa", "ec256", "ec384", "ec521"}
+Pkcs1PubKts == {"rsa", "dsa"}     \* "PKCS#1 is not supported for EC public keys"
 Pkcs8Kts  == PrivKts
 PrivFmts  == {"openssh", "pkcs1-der", "pkcs1-pem", "pkcs8-der", "pkcs8-pem"}
 PubFmts   == {"openssh", "rfc4716", "pkcs1-der", "pkcs1-pem", "pkcs8-der", "pkcs8-pem"}
@@ -128,12 +129,12 @@ PubCases == [kt : PrivKts \cup PubOnly, fmt : PubFmts \cup {"bogus"}]
 
 PubLegal(k) ==
     /\ k.fmt \in PubFmts
-    /\ (k.fmt \in {"pkcs1-der", "pkcs1-pem"} => k.kt \in Pkcs1Kts)
+    /\ (k.fmt \in {"pkcs1-der", "pkcs1-pem"} => k.kt \in Pkcs1PubKts)
     /\ (k.fmt \in {"pkcs8-der", "pkcs8-pem"} => k.kt \in Pkcs8Kts)
 
 ExportPubOutcome(k) ==
     CASE k.fmt \in {"pkcs1-der", "pkcs1-pem"} ->
-            IF k.kt \in Pkcs1Kts THEN "ok" ELSE "KeyExportError"
+            IF k.kt \in Pkcs1PubKts THEN "ok" ELSE "KeyExportError"
       [] k.fmt \in {"pkcs8-der", "pkcs8-pem"} ->
             IF k.kt \in Pkcs8Kts THEN "ok" ELSE "KeyExportError"
       [] k.fmt \in {"openssh", "rfc4716"} -> "ok"
@@ -159,8 +160,15 @@ SeqsUpTo(S, n) == IF n = 0 THEN {<<>>}
 ScanPrivCases ==
     [blocks : {d \o t : d \in {<<>>, <<"der">>, <<"der", "der">>}, t \in SeqsUpTo(PrivKinds, MaxBlocks)},
      eol : {"lf", "crlf"}, finalnl : BOOLEAN, pass : BOOLEAN]
+\* An unterminated RFC 4716 block followed later by a complete one is left out:
+\* the footer search then finds the later footer and what the concatenated
+\* base64 decodes to depends on the key bytes (padding), not on the structure.
+\* (Unterminated PEM blocks carry a PEM type no other block of the file uses.)
+PubWellPosed(t) == \A i \in DOMAIN t : \A j \in DOMAIN t :
+                      (i < j /\ t[i] = "untermrfc") => t[j] # "rfc"
 ScanPubCases ==
-    [blocks : {d \o t : d \in {<<>>, <<"der">>}, t \in SeqsUpTo(PubKinds, MaxBlocks)},
+    [blocks : {d \o t : d \in {<<>>, <<"der">>},
+                        t \in {u \in SeqsUpTo(PubKinds, MaxBlocks) : PubWellPosed(u)}},
      eol : {"lf", "crlf"}, finalnl : BOOLEAN, pass : {FALSE}]
 
 IsPrivKey(b) == b \in {"pem", "pemenc", "der"}
@@ -233,7 +241,7 @@ EncChoices(fmt) == IF fmt \in {"pkcs1-pem", "pkcs8-pem", "pkcs8-der"} THEN {FALS
                    ELSE IF fmt = "openssh" /\ Bcrypt THEN {FALSE, TRUE} ELSE {FALSE}
 
 PrivFmtOK(kt, fmt) == fmt \in {"pkcs1-der", "pkcs1-pem"} => kt \in Pkcs1Kts
-PubFmtOK(kt, fmt) == /\ (fmt \in {"pkcs1-der", "pkcs1-pem"} => kt \in Pkcs1Kts)
+PubFmtOK(kt, fmt) == /\ (fmt \in {"pkcs1-der", "pkcs1-pem"} => kt \in Pkcs1PubKts)
                      /\ (fmt \in {"pkcs8-der", "pkcs8-pem"} => kt \in Pkcs8Kts)
 
 \* comment after passing through a format
@@ -250,12 +258,10 @@ ChainNextSts(k, s) ==
     IF Len(s.hist) >= MaxDepth THEN {}
     ELSE IF s.form = "obj"
     THEN (IF s.priv
-          THEN {[s EXCEPT !.form = "bytes", !.fmt = f, !.enc = e, !.pub = FALSE,
+          THEN UNION {{[s EXCEPT !.form = "bytes", !.fmt = f, !.enc = e, !.pub = FALSE,
                           !.hist = Append(s.hist, <<"export_private", f, e, s.priv, s.cmt>>)]
-                  : f \in {g \in PrivFmts : PrivFmtOK(k.kt, g)}, e \in BOOLEAN}
-               \cap {t \in [id : {1}, priv : BOOLEAN, cmt : {"orig", "trimmed", "none"},
-                            form : {"bytes"}, fmt : PrivFmts, enc : BOOLEAN, pub : BOOLEAN,
-                            hist : Seq(Seq(STRING \cup BOOLEAN))] : TRUE}
+                         : e \in EncChoices(f)}
+                      : f \in {g \in PrivFmts : PrivFmtOK(k.kt, g)}}
           ELSE {})
          \cup
          {[s EXCEPT !.form = "bytes", !.fmt = f, !.enc = FALSE, !.pub = TRUE,
